@@ -1,1 +1,3 @@
-//! harness package hdrv
+//! harness package hdrv: driver-level conformance (C01 C02 C05 C06 C07 C03 C17)
+pub mod rec;
+pub mod tbuf;
